@@ -298,7 +298,7 @@ int main (void) {
                 close (pfd[0]);
                 scenario (n, w[3], w[4], out);
                 fflush (out);
-                _exit (0);
+                HX_COV_DUMP (); _exit (0);
             }
             close (pfd[1]);
             p.fd = pfd[0]; p.events = POLLIN;
